@@ -1,6 +1,6 @@
 (* C08 — Keys survive serialisation unchanged; secret keys derive the matching public key; wrong lengths,
    invalid points and out-of-range scalars are rejected.  Models: Keys.v (each backend's HasKey impls). *)
-From PV Require Import Bytes Result Oracle Keys KeysProofs ToyOracle.
+From PV Require Import Bytes Result Oracle Keys KeysProofs KeysProofs2 ToyOracle.
 Local Open Scope list_scope.
 
 (* local keys: exactly the 32-byte strings, unchanged *)
@@ -71,6 +71,21 @@ Proof. exact lc_v3_secret_agree. Qed.
 Theorem C08_v3_awslc_scalar_encoding : forall sk, length sk = 48 -> lc_encode_secret sk = Ok sk.
 Proof. exact lc_encode_is_identity. Qed.
 
+(* ---- all backends but v1 at once: an accepted key re-encodes, and the encoding parses back to the same key
+        object (bytes and PASERK text): serialise -> parse is the identity on accepted keys ---- *)
+Theorem C08_reparse : forall O, laws O ->
+  (forall sd, ed_pk_weak (ed_pk O sd) = false) ->
+  (forall bs pk, p384_parse O bs = Some pk -> compressed_tag pk = true) ->
+  forall b k bs0 obj, b <> B1 -> key_decode O b k bs0 = Ok obj ->
+  exists bs, key_encode O b k obj = Ok bs /\ key_decode O b k bs = Ok obj.
+Proof. exact key_reparse. Qed.
+Theorem C08_text_roundtrip : forall O, laws O ->
+  (forall sd, ed_pk_weak (ed_pk O sd) = false) ->
+  (forall bs pk, p384_parse O bs = Some pk -> compressed_tag pk = true) ->
+  forall b k bs0 obj, b <> B1 -> key_decode O b k bs0 = Ok obj ->
+  exists text, key_to_text O b k obj = Ok text /\ key_from_str O b k text = Ok obj.
+Proof. exact key_text_roundtrip. Qed.
+
 Print Assumptions C08_local_exact.
 Print Assumptions C08_local_wrong_length.
 Print Assumptions C08_ed_public_exact.
@@ -91,6 +106,9 @@ Print Assumptions C08_v3_public_of_secret.
 Print Assumptions C08_v3_backends_agree_on_public_keys.
 Print Assumptions C08_v3_backends_agree_on_secret_keys.
 Print Assumptions C08_v3_awslc_scalar_encoding.
+
+Print Assumptions C08_reparse.
+Print Assumptions C08_text_roundtrip.
 
 (* non-vacuity: the premises of the theorems above ([laws O] and the four point-encoder facts) have a model *)
 Theorem C08_premises_satisfiable : exists O, laws O /\
